@@ -7,7 +7,7 @@
 (*   [cid  |-> cell identity (becomes the cell id in 4.5 notebooks),       *)
 (*    fam  |-> content family (which text the source derives from),        *)
 (*    kind |-> "code" | "markdown" | "raw",                                 *)
-(*    src  |-> 0..11 source variant: 0 family text, 1 small edit (stays    *)
+(*    src  |-> 0..12 source variant: 0 family text, 1 small edit (stays    *)
 (*             "strictly similar"), 2 moderate edit (only approximately    *)
 (*             similar), 3 rewritten (dissimilar), 4 emptied, 5 / 6 two    *)
 (*             far-apart lines edited (differently in 5 and 6), 7 a line   *)
@@ -16,7 +16,8 @@
 (*             identical adjacent lines deleted (nothing else changes),    *)
 (*             10 only the last line edited (its ending, or lack of one,   *)
 (*             kept), 11 the first two lines edited inside the line (at    *)
-(*             column 0 / at the end),                                     *)
+(*             column 0 / at the end), 12 the last line edited and its     *)
+(*             line end toggled (added if missing, dropped if present),    *)
 (*    outs |-> 0..7  output-list variant (code cells),                     *)
 (*    md   |-> 0..5  cell metadata variant (2..4 share a tags list that    *)
 (*             grows differently; 5 carries the "nbdime-conflicts" record  *)
@@ -117,6 +118,14 @@ Edits(nb) ==
              Cell(newcid, f, k, s, IF k = "code" THEN 1 ELSE 0, 0, IF k = "code" THEN 1 ELSE 0, 0)))>> :
        p \in 1..(n + 1), f \in NewFams, k \in {"code", "markdown"}, s \in {0, 1} })
   \cup
+  \* insert a new markdown cell that carries typed metadata keys (tags, collapsed, scrolled) and, optionally, an
+  \* attachment: two similar cells inserted at one position are merged key by key, optional keys on one side only
+  (IF fresh = {} THEN {} ELSE
+   \* (the identity is any fresh one: cells inserted independently on two branches get different ids)
+   { <<[a |-> "InsertRich", pos |-> p, src |-> s, md |-> m, att |-> t, cid |-> c],
+       WithCells(InsertAt(nb.cells, p, Cell(c, 7, "markdown", s, 0, m, 0, t)))>> :
+       p \in 1..(n + 1), s \in {0, 1}, m \in {1, 2, 4}, t \in {0, 1}, c \in fresh })
+  \cup
   { <<[a |-> "Delete", pos |-> i], WithCells(RemoveAt(nb.cells, i))>> : i \in 1..n }
   \cup
   \* replace a cell by a short run of new cells (removal + insertion at one position)
@@ -146,7 +155,7 @@ Edits(nb) ==
   \* fine-grained edits inside lines (first cell only, to keep the state space small): 5 / 6 edit the same two
   \* far-apart lines differently; 7 inserts a line before the line 8 edits at column 0, and makes that edit too
   (IF n = 0 THEN {} ELSE
-   { <<[a |-> "EditSource", pos |-> 1, v |-> v], SetField(1, "src", v)>> : v \in 5..11 })
+   { <<[a |-> "EditSource", pos |-> 1, v |-> v], SetField(1, "src", v)>> : v \in 5..12 })
   \cup
   \* convert a cell to another type, keeping its identity (code <-> markdown: outputs / execution count go or come)
   { <<[a |-> "ChangeKind", pos |-> i],
@@ -219,7 +228,7 @@ IsNb(nb) == /\ nb.minor \in 0..5
             /\ nb.nbmd \in (0..4) \cup {12}
             /\ \A i \in 1..Len(nb.cells) :
                   /\ nb.cells[i].kind \in {"code", "markdown", "raw"}
-                  /\ nb.cells[i].src \in 0..11 /\ nb.cells[i].outs \in 0..7
+                  /\ nb.cells[i].src \in 0..12 /\ nb.cells[i].outs \in 0..7
                   /\ nb.cells[i].md \in (0..5) \cup (11..14) /\ nb.cells[i].ec \in 0..2 /\ nb.cells[i].att \in 0..3
 TypeOK == IsNb(base) /\ IsNb(local) /\ IsNb(remote)
 
